@@ -615,6 +615,20 @@ func (c *depCtx) compute(v ssa.Value) src {
 					visit(y, depth+1)
 				case *ssa.IndexAddr:
 					visit(y, depth+1)
+				case *ssa.MakeInterface:
+					// fmt.Fprintf(&b, ...): the builder travels as an io.Writer
+					if y.Referrers() != nil {
+						for _, r2 := range *y.Referrers() {
+							if call, ok := r2.(ssa.CallInstruction); ok {
+								if f := call.Common().StaticCallee(); f != nil && fprintFuncs[f.String()] && len(call.Common().Args) > 1 && call.Common().Args[0] == ssa.Value(y) && c.blockOK(call) {
+									for _, a := range call.Common().Args[1:] {
+										d |= c.deps(a)
+									}
+									d |= c.ctrlDeps(call.Block())
+								}
+							}
+						}
+					}
 				case ssa.CallInstruction:
 					if f := y.Common().StaticCallee(); f != nil && builderWriters[f.String()] && len(y.Common().Args) > 1 && y.Common().Args[0] == addr && c.blockOK(y) {
 						d |= c.deps(y.Common().Args[1])
@@ -702,6 +716,9 @@ func (c *depCtx) compute(v ssa.Value) src {
 			for _, ref := range *x.Referrers() {
 				if mu, ok := ref.(*ssa.MapUpdate); ok && c.blockOK(mu) {
 					d |= c.deps(mu.Value) | c.deps(mu.Key)
+					if mu.Block() != x.Block() {
+						d |= c.ctrlDeps(mu.Block()) // an entry set under a condition carries the condition
+					}
 				}
 			}
 		}
@@ -1074,6 +1091,12 @@ func (m *matrix) sitesOf(fn *ssa.Function) []site {
 		case ssa.CallInstruction:
 			if f := x.Common().StaticCallee(); f != nil && builderWriters[f.String()] && len(x.Common().Args) > 1 {
 				out = append(out, site{fn, ins, x.Common().Args[1]})
+			} else if f != nil && fprintFuncs[f.String()] && len(x.Common().Args) > 1 {
+				for _, a := range x.Common().Args[1:] {
+					if _, isConst := a.(*ssa.Const); !isConst {
+						out = append(out, site{fn, ins, a})
+					}
+				}
 			}
 		case *ssa.BinOp:
 			// string accumulation: code = code + piece  -> the piece is emitted here
@@ -1351,8 +1374,8 @@ func (m *matrix) unitGroups(fns []*ssa.Function, u unit) []groupDeps {
 			if f == nil || st.empty() || !st.admits(u) {
 				continue
 			}
-			if st.isTop() {
-				continue // no test on the field dominates this site: not specific to any cell
+			if _, isParam := f.(*ssa.Parameter); st.isTop() && !isParam {
+				continue // no test on the (loop variable) field dominates this site: common text, not specific to any cell
 			}
 			if u.Target && st.L != 1 {
 				continue // the back-patch cell consists of the sites under the LenAttr test only
